@@ -846,6 +846,7 @@ def m_nonfinite_point(spec, i, v):
 
 def _hdc(spec, v):
     if spec["contour"] is None or spec["contour"]["kind"] != "hdc":
+        spec["mal"] = [m for m in spec["mal"] if m["phase"] != "PhContour"]
         spec["contour"] = good_hdc(len(spec["descs"]), v)
     return spec["contour"]
 
@@ -900,6 +901,7 @@ def m_not_2d(spec, i, v):
     if i != 0 or len(spec["descs"]) == 2:
         return None
     with_sample = (v // 3) % 2 == 1
+    spec["mal"] = [m for m in spec["mal"] if m["phase"] != "PhContour"]     # the contour request is replaced
     spec["contour"] = {"kind": ["direct", "and", "or"][v % 3], "sample": "two_columns" if with_sample else None}
     return {"cls": "two_dimensional_contour_on_other_dimension", "pos": 0, "phase": "PhContour",
             "detail": "%s contour on a %d-dimensional model, %s" % (spec["contour"]["kind"], len(spec["descs"]),
@@ -909,6 +911,7 @@ def m_not_2d(spec, i, v):
 def m_iform_model_type(spec, i, v):
     if i != 0:
         return None
+    spec["mal"] = [m for m in spec["mal"] if m["phase"] != "PhContour"]     # the contour request is replaced
     spec["contour"] = {"kind": "iform", "model": ["str", "int"][v % 2]}
     return {"cls": "iform_model_wrong_type", "pos": 0, "phase": "PhContour"}
 
